@@ -33,7 +33,7 @@ func (e *env) ordValues() []sc {
 }
 
 func order(x *mon.Ctx) {
-	e := setup(x, 0)
+	e := setup(x, 0, false)
 	vals := e.ordValues()
 
 	// 1. Inverse through the curve type: any non-negative integer, reduced mod n by the library
